@@ -183,8 +183,6 @@ func (c *Channel) Open() (reterr error) {
 func (c *Channel) Close() error {
 	c.l.Info("channel closing...")
 
-	close(c.Errs)
-
 	ch := make(chan struct{})
 
 	if !c.readLoopExited {
@@ -199,6 +197,10 @@ func (c *Channel) Close() error {
 
 	select {
 	case <-ch:
+		// the read loop has exited (or has just taken the done signal and will not touch Errs again), so
+		// nothing can be sending on Errs any longer and it is safe to close it.
+		close(c.Errs)
+
 		c.l.Debug("closing underlying transport...")
 
 		return c.t.Close(false)
